@@ -27,6 +27,7 @@ type Contract struct {
 	Extern     bool
 	ExternHdr  string // full Go header for extern contracts
 	Requires   []*Clause
+	Givens     []*Clause // ghost hypotheses: assumed in the body, antecedent of ensures at call sites
 	Ensures    []*Clause
 	Invariants []*Clause
 	InvVars    map[int]string // loop ordinal -> "a T, b U"
@@ -63,6 +64,37 @@ type ContractFile struct {
 	Axioms    []*Clause
 	Lemmas    []*Clause
 	Imports   []string // extra imports for extern files
+	Macros    map[string]string
+}
+
+var macroRe = regexp.MustCompile(`\$(\w+)`)
+
+func (cf *ContractFile) expand(s string) string {
+	for i := 0; i < 8 && strings.Contains(s, "$"); i++ {
+		s = macroRe.ReplaceAllStringFunc(s, func(m string) string {
+			if v, ok := cf.Macros[m[1:]]; ok {
+				return "(" + v + ")"
+			}
+			return m
+		})
+	}
+	return s
+}
+
+// expandAll applies macros to every clause of the file.
+func (cf *ContractFile) expandAll() {
+	for _, c := range cf.Contracts {
+		for _, l := range [][]*Clause{c.Requires, c.Givens, c.Ensures, c.Invariants} {
+			for _, cl := range l {
+				cl.Text = cf.expand(cl.Text)
+			}
+		}
+	}
+	for _, l := range [][]*Clause{cf.Axioms, cf.Lemmas} {
+		for _, cl := range l {
+			cl.Text = cf.expand(cl.Text)
+		}
+	}
 }
 
 var labelRe = regexp.MustCompile(`^(\w+)\[([\w.\-]+)\]\s*(.*)$`)
@@ -73,7 +105,8 @@ func parseContractFile(path string) (*ContractFile, error) {
 		return nil, err
 	}
 	defer f.Close()
-	cf := &ContractFile{Path: path}
+	cf := &ContractFile{Path: path, Macros: map[string]string{}}
+	var lastMacro string
 	var cur *Contract
 	curSrc := ""
 	sc := bufio.NewScanner(f)
@@ -97,7 +130,9 @@ func parseContractFile(path string) (*ContractFile, error) {
 		}
 		if strings.HasPrefix(body, "|") { // continuation
 			cont := strings.TrimSpace(body[1:])
-			if lastClause != nil {
+			if lastMacro != "" {
+				cf.Macros[lastMacro] += " " + cont
+			} else if lastClause != nil {
 				lastClause.Text += " " + cont
 			} else if lastList != nil && len(*lastList) > 0 {
 				(*lastList)[len(*lastList)-1] += " " + cont
@@ -106,6 +141,7 @@ func parseContractFile(path string) (*ContractFile, error) {
 		}
 		lastClause = nil
 		lastList = nil
+		lastMacro = ""
 		word := body
 		rest := ""
 		if i := strings.IndexAny(body, " \t"); i >= 0 {
@@ -116,6 +152,13 @@ func parseContractFile(path string) (*ContractFile, error) {
 			word, label, rest = m[1], m[2], m[3]
 		}
 		switch word {
+		case "macro":
+			i := strings.Index(rest, "=")
+			if i < 0 {
+				return nil, fmt.Errorf("%s:%d: macro needs NAME = text", path, ln)
+			}
+			lastMacro = strings.TrimSpace(rest[:i])
+			cf.Macros[lastMacro] = strings.TrimSpace(rest[i+1:])
 		case "import":
 			cf.Imports = append(cf.Imports, rest)
 		case "file":
@@ -146,6 +189,10 @@ func parseContractFile(path string) (*ContractFile, error) {
 			case "requires":
 				c := &Clause{Kind: word, Label: label, Text: rest, Line: ln, File: path}
 				cur.Requires = append(cur.Requires, c)
+				lastClause = c
+			case "given":
+				c := &Clause{Kind: word, Label: label, Text: rest, Line: ln, File: path}
+				cur.Givens = append(cur.Givens, c)
 				lastClause = c
 			case "ensures":
 				c := &Clause{Kind: word, Label: label, Text: rest, Line: ln, File: path}
@@ -194,6 +241,7 @@ func parseContractFile(path string) (*ContractFile, error) {
 			}
 		}
 	}
+	cf.expandAll()
 	return cf, sc.Err()
 }
 
@@ -350,6 +398,9 @@ func rewriteSpec(s string) (string, error) {
 			inner := s[i+1 : j]
 			if strings.Contains(inner, "==>") || strings.Contains(inner, "forall ") || strings.Contains(inner, "exists ") {
 				parts := splitTop(inner, ',')
+				if ti := strings.TrimSpace(inner); strings.HasPrefix(ti, "forall ") || strings.HasPrefix(ti, "exists ") {
+					parts = []string{inner}
+				}
 				for k, p := range parts {
 					r, err := rewriteSpec(p)
 					if err != nil {
